@@ -85,7 +85,9 @@ def run(res):
     vlib.build_model_runner()
     ok, out = vlib.build_harness("rt")
     if not ok:
-        raise vlib.CheckError("harness rt does not build against /repo: " + out[-1500:])
+        # the support function's signature changed: the direct tie is broken.  Fall back to the
+        # public surface (the real macro through rustc) and search there (DESIGN.md 4.1).
+        return fallback(res, out)
     cases, exhaustive = gen_cases(res.tier, res.seed)
     impl = vlib.run_harness("rt", cases)
     model = vlib.run_model(cases)
@@ -120,6 +122,45 @@ def run(res):
                 % ((3, 3, exhaustive) if res.tier == "quick" else (4, 4, exhaustive)),
         "samples": st["samples"], "exhaustive_part": exhaustive, "impl_pass": passes, "impl_fail": len(cases) - passes,
     })
+
+
+def fallback(res, build_error):
+    import random
+    import e2e
+    import maclib
+    import semgen
+    import semstage
+    vlib.build_model_runner()
+    okm, outm = maclib.build_mac()
+    if not okm:
+        raise vlib.CheckError("neither harness rt nor harness mac builds against /repo: " + build_error[-800:])
+    rng = random.Random(res.seed * 17 + 10)
+    cases = [semgen.set_stress_case(rng) for _ in range(600 if res.tier == "quick" else 6000)]
+    try:
+        cases = semstage.run_cases(cases, tag="c10fb")
+    finally:
+        e2e.cleanup("c10fb")
+    failing = 0
+    for c in cases:
+        spec = c["model"]["frontier"]           # brute-force existence of an assignment (Spec.v), extracted
+        if spec is None or c["real"] is None:
+            continue
+        if (spec == []) != (c["real"]["verdict"] == "pass"):
+            failing += 1
+            if failing <= 3:
+                res.violation("failing-input", "set pattern %s on %s: the assertion %s but a one-to-one assignment %s"
+                              % (c["pattern"], c["value_rust"], "passed" if c["real"]["verdict"] == "pass" else "failed",
+                                 "does not exist" if spec != [] else "exists"),
+                              {"type": c["type"], "value": c["value_rust"], "pattern": c["pattern"], "rt_build_error": build_error[-600:]})
+    res.obligations.append("correspondence:set_match(verdict, pushed entry, order of predicate calls)")
+    res.streams["fallback_macro_level"] = {"cases": len(cases), "failing": failing}
+    res.coverage.update({"evaluations": len(cases), "distinct_nontrivial": len({c["pattern"] + c["value_rust"] for c in cases}),
+                         "rule": "fallback: harness rt no longer builds; set patterns with arbitrary match matrices compiled with the real macro",
+                         "samples": [{"pattern": c["pattern"], "value": c["value_rust"]} for c in cases[:3]]})
+    if not failing:
+        res.violation("no-failing-input-found",
+                      "correspondence set_match no longer checks: harness rt does not build against /repo (the support function changed shape)",
+                      {"build_error": build_error[-1500:]})
 
 
 def replay(res, path):
